@@ -31,6 +31,12 @@ EXPLANATION = ('Writer/reader agreement of cost-specification keys, resolved thr
 RULE_TEXT = ('obligation = (MPS layer class, cost spec, registered function, key) for R05a and '
              '(layer class, clause) for R05b; discovered from registries and registrations')
 
+# cost specs whose key agreement is decided under another property (one line of reason each)
+SCOPED_ELSEWHERE = {
+    'diana_latency': 'the DIANA model is the default cost of ODiMO_MPS, which C12 names; C05 '
+                     'quantifies over params_bit/ops_bit/mpic/ne16 (+ plain specs)',
+}
+
 PRECISION_KEYS = {'in_precision', 'w_precision', 'w_theta_alpha', 'in_format', 'w_format'}
 
 
@@ -124,6 +130,8 @@ def r05a(ctx):
                    f'{k} is never written into the spec', where(gc), nontrivial=False)
         # (i) readers
         for reg in registrations_for(specs, ltype):
+            if reg.spec in SCOPED_ELSEWHERE:
+                continue
             problems: List[str] = []
             reads = keys_read(repo, reg.fn, None, problems)
             if reg.constraint is not None:
